@@ -36,9 +36,9 @@ typedef long double LD;
 namespace
 {
 
-enum Kind {GENERIC = 0, MULTIPLE, HALF_MULTIPLE, TINY, LIMITS, INSIDE_ONE_CELL, ZERO_SPECIAL, INTEGER};
+enum Kind {GENERIC = 0, MULTIPLE, HALF_MULTIPLE, TINY, LIMITS, INSIDE_ONE_CELL, ZERO_SPECIAL, INTEGER, LATTICE};
 static const char * const KIND_NAME[] = {"generic", "multiple", "half_multiple", "tiny", "limits",
-  "inside_one_cell", "zero_special", "integer"};
+  "inside_one_cell", "zero_special", "integer", "lattice"};
 
 // values random reals never produce: signed zeros, denormals, the smallest normal
 template<class S> S tiny_special(vh::Rng & r)
@@ -904,6 +904,114 @@ void touch_centres(const romea::core::GridIndexMapping<S, D> & m)
   }
 }
 
+
+// ------------------------------------------------------------------------------------------
+// RELATED configuration pairs for the re-use operations: the second configuration is derived from
+// the first so that some, but not all, derived quantities coincide (an assignment that decides
+// what to refresh from a partial key is only wrong on such pairs; independent draws never hit them).
+// Everything lives on a dyadic lattice: res1 = a u, res2 = b u (a != b odd, u = 2^e), lower bound
+// (k + q/4) res with integer k, so that floor(lo/res) = k, the snapped origin res (k - 1/2) and the
+// cell count n are known exactly without any rounding (in float and in double), independently of how
+// the library computes them.  Equal origins: a (2 k1 - 1) = b (2 k2 - 1), i.e. k1 = (b t + 1)/2,
+// k2 = (a t + 1)/2 for an odd t  (a=1, b=3, t=-1, u=1: [-1,..] at 1 m and [0,..] at 3 m, origin -1.5).
+// ------------------------------------------------------------------------------------------
+enum Rel {R_SAME_COUNTS = 0, R_SAME_ORIGIN, R_SAME_COUNTS_AND_ORIGIN, R_SHIFTED_ORIGIN, R_SAME_UPPER_BOUND,
+  R_IDENTICAL, R_PER_AXIS_MIXTURE, R_SYMMETRIC_SAME_COUNTS, R_COUNT};
+static const char * const REL_NAME[] = {"related_same_counts_other_resolution", "related_same_origin_other_resolution",
+  "related_same_counts_and_origin_other_resolution", "related_same_resolution_and_counts_shifted_origin",
+  "related_same_upper_bound_only", "related_identical", "related_per_axis_mixture",
+  "related_symmetric_same_counts_other_resolution"};
+
+template<class S, size_t D>
+void finish_lattice_cfg(Cfg<S, D> & g, S res, bool symmetric, S range)
+{
+  g.res = res;
+  int e; LD mnt = frexpl((LD)res, &e);
+  g.rkind = (mnt == 0.5L) ? 0 : 2;
+  g.gcat = "related_pair";
+  g.symmetric = symmetric; g.range = range; g.alias = 0; g.alias_axis = 0; g.form = 0;
+  uint64_t h = vh::hash_doubles({(double)Tr<S>::bits, (double)D, symmetric ? 1.0 : 0.0, (double)res});
+  bool small_int = true;
+  for (size_t d = 0; d < D; ++d) {
+    if (symmetric) {g.lo[d] = -range; g.hi[d] = range;}
+    g.kinds[d] = LATTICE;
+    h = vh::hash_add(vh::hash_add(h, g.lo[d]), g.hi[d]);
+    small_int = small_int && g.lo[d] == std::floor(g.lo[d]) && g.hi[d] == std::floor(g.hi[d]) &&
+      std::fabs(g.lo[d]) <= 3 && std::fabs(g.hi[d]) <= 3;
+  }
+  g.trivial = res == (S)1 && small_int;
+  g.hash = h;
+}
+
+template<class S, size_t D>
+bool gen_related_pair(vh::Ctx & c, vh::Rng & r, const char * tname, int rel, Cfg<S, D> & g1, Cfg<S, D> & g2)
+{
+  static const int ODD[] = {1, 3, 5, 7, 9};
+  int a = ODD[r.range(0, 4)], b = ODD[r.range(0, 4)];
+  while (b == a) {b = ODD[r.range(0, 4)];}
+  if (r.coin(0.15)) {a = 1; b = 3;}
+  const int e = r.coin(0.2) ? 0 : (int)r.range(-7, 0);
+  const LD u = ldexpl(1.0L, e);
+  const LD r1 = a * u, r2 = b * u;
+  // axis d of a configuration: lower bound (k + q/4) res, n cells, upper bound (k + n - 2 + p/4) res, p in 1..4
+  auto axis = [](LD res, int64_t k, int q, int64_t n, int p, S & lo, S & hi) {
+      if (n < 2) {n = 2;}
+      if (n == 2 && p < q) {p = q;}
+      lo = (S)(((LD)k + q / 4.0L) * res);
+      hi = (S)(((LD)k + (LD)(n - 2) + p / 4.0L) * res);
+    };
+  if (rel == R_SYMMETRIC_SAME_COUNTS) {
+    int64_t m = r.range(0, 30);
+    S ra = (S)(((LD)m + (int)r.range(1, 4) / 4.0L) * r1), rb = (S)(((LD)m + (int)r.range(1, 4) / 4.0L) * r2);
+    finish_lattice_cfg<S, D>(g1, (S)r1, true, ra);
+    finish_lattice_cfg<S, D>(g2, (S)r2, true, rb);
+  } else {
+    const int64_t tmax = std::max<int64_t>(1, (int64_t)floorl(600.0L / (a * b * u / 2)));
+    for (size_t d = 0; d < D; ++d) {
+      int64_t half = std::min<int64_t>((tmax - 1) / 2, r.coin(0.5) ? 3 : 1000);
+      int64_t t = 2 * r.range(-half - 1, half) + 1;                 // odd, |t| <= tmax
+      const int64_t k1 = (b * t + 1) / 2, k2 = (a * t + 1) / 2;     // b t + 1 and a t + 1 are even
+      const int64_t n = r.range(2, 40);
+      const int q1 = (int)r.range(0, 3), p1 = (int)r.range(1, 4), q2 = (int)r.range(0, 3), p2 = (int)r.range(1, 4);
+      int64_t s = r.range(1, 5) * (r.coin() ? 1 : -1);
+      int64_t dn = r.range(1, 6) * (r.coin() ? 1 : -1);
+      if (n + dn < 2) {dn = -dn;}
+      axis(r1, k1, q1, n, p1, g1.lo[d], g1.hi[d]);
+      switch (rel) {
+        case R_SAME_COUNTS: axis(r2, k2 + (d == 0 || r.coin() ? s : 0), q2, n, p2, g2.lo[d], g2.hi[d]); break;
+        case R_SAME_ORIGIN: axis(r2, k2, q2, n + (d == 0 || r.coin() ? dn : 0), p2, g2.lo[d], g2.hi[d]); break;
+        case R_SAME_COUNTS_AND_ORIGIN: axis(r2, k2, q2, n, p2, g2.lo[d], g2.hi[d]); break;
+        case R_SHIFTED_ORIGIN: axis(r1, k1 + (d == 0 || r.coin() ? s : 0), q2, n, p2, g2.lo[d], g2.hi[d]); break;
+        case R_SAME_UPPER_BOUND: {
+            g2.hi[d] = g1.hi[d];
+            g2.lo[d] = (S)((LD)g1.hi[d] - ((LD)r.range(0, 30) + q2 / 4.0L) * r2);
+          } break;
+        case R_IDENTICAL: g2.lo[d] = g1.lo[d]; g2.hi[d] = g1.hi[d]; break;
+        default:      // per-axis mixture: axis 0 shares count and origin, the others differ in count or origin
+          if (d == 0) {axis(r2, k2, q2, n, p2, g2.lo[d], g2.hi[d]);} else if (r.coin()) {
+            axis(r2, k2, q2, n + dn, p2, g2.lo[d], g2.hi[d]);
+          } else {axis(r2, k2 + s, q2, n, p2, g2.lo[d], g2.hi[d]);}
+      }
+    }
+    finish_lattice_cfg<S, D>(g1, (S)r1, false, (S)0);
+    finish_lattice_cfg<S, D>(g2, rel == R_SHIFTED_ORIGIN || rel == R_IDENTICAL ? (S)r1 : (S)r2, false, (S)0);
+  }
+  for (size_t d = 0; d < D; ++d) {
+    if (!(g1.lo[d] <= g1.hi[d] && g2.lo[d] <= g2.hi[d] && g1.lo[d] >= (S)-1000 && g2.lo[d] >= (S)-1000 &&
+      g1.hi[d] <= (S)1000 && g2.hi[d] <= (S)1000))
+    {
+      c.skip("related_pair:outside_quantifier"); return false;
+    }
+  }
+  static const char * const RK[] = {"res_dyadic", "res_decimal", "res_generic"};
+  c.cat(tname); c.cat(tname);
+  c.cat(RK[g1.rkind]); c.cat(RK[g2.rkind]);
+  c.cat("related_pair"); c.cat("related_pair");
+  c.cat(REL_NAME[rel]);
+  if (rel == R_SAME_COUNTS_AND_ORIGIN) {c.cat(std::string(REL_NAME[rel]) + "/" + tname);}
+  return true;
+}
+
 // One case = one mapping OBJECT and its history: built (directly, by copy, by move, or default-
 // constructed then assigned), used (not at all / indexes only / centres only / all oracles), then --
 // in about a third of the cases -- assigned a NEW configuration (from a never-queried temporary,
@@ -916,10 +1024,17 @@ template<class S, size_t D>
 void grid_case(vh::Ctx & c, vh::Rng & r, const char * tname)
 {
   using G = romea::core::GridIndexMapping<S, D>;
-  Cfg<S, D> g1;
-  if (!gen_cfg<S, D>(c, r, tname, g1)) {return;}
+  Cfg<S, D> g1, grel;
+  // 7 % of the cases: a pair of RELATED configurations (see gen_related_pair) taken through the re-use operations
+  const bool related = r.coin(0.07);
+  const int rel = (int)r.range(0, R_COUNT - 1);
+  const int rop = (int)r.range(0, 4);   // 0 assign temporary, 1 copy-assign, 2 move-assign, 3 after default construction, 4 alternating history
+  if (related) {
+    if (!gen_related_pair<S, D>(c, r, tname, rel, g1, grel)) {return;}
+  } else if (!gen_cfg<S, D>(c, r, tname, g1)) {return;}
 
   int how = (int)r.range(0, 9);      // 0: default-construct then assign, 1: copy, 2: move, else direct
+  if (related && rop == 3) {how = 0;}
   std::unique_ptr<G> grid;
   if (how == 0) {grid.reset(new G()); *grid = make_grid(g1);} else if (how == 1) {
     G tmp = make_grid(g1);
@@ -939,9 +1054,9 @@ void grid_case(vh::Ctx & c, vh::Rng & r, const char * tname)
   const bool lh16 = lh16draw && c.N > 50000;          // too slow for the reduced (valgrind) workloads
   const int kextra = (int)r.range(0, 3);
 
-  const bool reassign = lh8 || lh16 || r.coin(0.34);
+  const bool reassign = !related && (lh8 || lh16 || r.coin(0.34));
   // what the object has served before the re-assignment (always everything when there is none)
-  const int pre = reassign ? (int)r.range(0, 5) : 5;    // 0 nothing, 1 indexes, 2 centres, 3..5 all oracles
+  const int pre = (reassign || related) ? (int)r.range(0, 5) : 5;    // 0 nothing, 1 indexes, 2 centres, 3..5 all oracles
   if (pre >= 3) {
     check_grid<S, D>(c, r, tname, g1, *grid, how == 0 ? "default_constructed_then_assigned" :
       how == 1 ? "copy_constructed" : how == 2 ? "move_constructed" : "constructed", 0);
@@ -1046,6 +1161,47 @@ void grid_case(vh::Ctx & c, vh::Rng & r, const char * tname)
       h = vh::hash_addi(vh::hash_addi(h, g2.hash), (uint64_t)(mode * 8 + pre));
       trivial = trivial && g2.trivial;
       gcur = g2; cur_mode = mode;
+    }
+  }
+  if (related) {
+    static const char * const OPN[] = {"related_op_assign_temporary", "related_op_copy_assign", "related_op_move_assign",
+      "related_op_assign_after_default_construction", "related_op_alternating_history"};
+    // one re-use operation taking the object from configuration `from` to configuration `to`
+    auto apply = [&](int op, const Cfg<S, D> & from, const Cfg<S, D> & to) {
+        switch (op) {
+          case 1: {G src = make_grid(to); if (r.coin()) {touch_centres<S, D>(src);} *grid = src;} break;
+          case 2: {G src = make_grid(to); if (r.coin()) {touch_centres<S, D>(src);} *grid = std::move(src);} break;
+          case 4: {
+              // from, to, from, to, ... 2^8+k times (2^16+k in 1/40 of these cases on full-size workloads),
+              // from lvalue sources, every 7th state used, ending on `to`
+              const uint64_t n = ((lh16draw || r.coin(1.0 / 40)) && c.N > 50000 ? 65536u : 256u) + (uint64_t)kextra;
+              const G A = make_grid(from), B = make_grid(to);
+              for (uint64_t i = 0; i < n; ++i) {
+                *grid = (i & 1) ? B : A;
+                if (i % 7 == 3) {touch_centres<S, D>(*grid);}
+              }
+              *grid = B;
+            } break;
+          default: *grid = make_grid(to);
+        }
+      };
+    apply(rop, g1, grel);
+    c.cat(OPN[rop]);
+    c.cat(pre == 0 ? "reassigned_target_never_used" : pre == 1 ? "reassigned_target_indexes_used" :
+      pre == 2 ? "reassigned_target_centres_used" : "reassigned_target_fully_checked");
+    check_grid<S, D>(c, r, tname, grel, *grid, REL_NAME[rel], 40 + rel);
+    expect_same_as_fresh<S, D>(c, grel, *grid, REL_NAME[rel], 40 + rel);
+    h = vh::hash_addi(vh::hash_addi(h, grel.hash), (uint64_t)(1000 + rel * 8 + rop));
+    trivial = trivial && grel.trivial;
+    gcur = grel; cur_mode = 40 + rel;
+    if (r.coin()) {
+      // and back again, by another operation
+      const int op2 = (int)r.range(0, 2);
+      apply(op2, grel, g1);
+      c.cat("related_op_assign_back");
+      check_grid<S, D>(c, r, tname, g1, *grid, "related_pair_assigned_back", 60 + rel);
+      expect_same_as_fresh<S, D>(c, g1, *grid, "related_pair_assigned_back", 60 + rel);
+      gcur = g1; cur_mode = 60 + rel;
     }
   }
   c.distinct(h, !trivial);
